@@ -22,6 +22,9 @@ CHANGES = {
     'weak-swap-exchange-relaxed': ('VIOLATION', [(AUP, 'other.reset(ptr_.exchange(other.release()));',
                                                   'other.reset(ptr_.exchange(other.release(), std::memory_order_relaxed));')]),
     'weak-reset-exchange-relaxed': ('VIOLATION', [(AUP, 'ptr = ptr_.exchange(ptr);', 'ptr = ptr_.exchange(ptr, std::memory_order_relaxed);')]),
+    'weak-fadd-tail-relaxed': ('VIOLATION', [(RING, '    tail_ += n;', '    tail_.fetch_add(n, std::memory_order_relaxed);')]),
+    'weak-add-tail-load-relaxed': ('VIOLATION', [(RING, '      uint64_t tail = tail_;\n      uint64_t head = head_;\n\n      // The circular buffer is full',
+                                                  '      uint64_t tail = tail_.load(std::memory_order_relaxed);\n      uint64_t head = head_;\n\n      // The circular buffer is full')]),
     'strong-release-to-seqcst': ('OK', [(SPIN, 'flag_.store(false, std::memory_order_release)', 'flag_.store(false, std::memory_order_seq_cst)'),
                                         (AUP, 'ptr_.compare_exchange_weak(expected, ptr, std::memory_order_release,',
                                          'ptr_.compare_exchange_weak(expected, ptr, std::memory_order_seq_cst,'),
